@@ -12,6 +12,7 @@ import (
 	"io"
 	"os"
 	"os/exec"
+	"os/signal"
 	"sync"
 	"syscall"
 
@@ -198,7 +199,7 @@ func Snapshot() ([]Event, []*vrt.Proc) {
 func Exit(code int) {
 	p := vrt.CurProc()
 	if p == nil || !vrt.S.Active {
-		panic(fmt.Sprintf("vproc.Exit(%d) outside a simulated process", code))
+		os.Exit(code)
 	}
 	Finish(p, code, 0)
 	select {}
@@ -227,6 +228,13 @@ func FindProcess(pid int) (*Process, error) { return &Process{Pid: pid}, nil }
 var ErrProcessDone = errors.New("os: process already finished")
 
 func (p *Process) Signal(sig os.Signal) error {
+	if !simulated() {
+		rp, err := os.FindProcess(p.Pid)
+		if err != nil {
+			return err
+		}
+		return rp.Signal(sig)
+	}
 	s, _ := sig.(syscall.Signal)
 	if !Alive(p.Pid) {
 		return ErrProcessDone
@@ -268,12 +276,21 @@ func Deliver(p *vrt.Proc, sig syscall.Signal) {
 }
 
 func SignalNotify(c chan<- os.Signal, sigs ...os.Signal) {
+	if !simulated() {
+		signal.Notify(c, sigs...)
+		return
+	}
 	if pi := Info(vrt.CurProc()); pi != nil {
 		pi.SigChan = c
 	}
 }
 
-func SignalIgnored(os.Signal) bool { return false }
+func SignalIgnored(s os.Signal) bool {
+	if !simulated() {
+		return signal.Ignored(s)
+	}
+	return false
+}
 func SignalStop(chan<- os.Signal)  {}
 
 // ---- exec replacements ----
@@ -318,7 +335,27 @@ type Cmd struct {
 	ProcessState *os.ProcessState
 	proc         *vrt.Proc
 	ctx          context.Context
+	real         *exec.Cmd // pass-through when not running under the simulator
 }
+
+// passThrough builds the real command for use outside a simulation (the
+// instrumented build then behaves like the original code).
+func (c *Cmd) passThrough() *exec.Cmd {
+	if c.real == nil {
+		var rc *exec.Cmd
+		if c.ctx != nil {
+			rc = exec.CommandContext(c.ctx, c.Path, c.Args[1:]...)
+		} else {
+			rc = exec.Command(c.Path, c.Args[1:]...)
+		}
+		rc.Env, rc.Dir, rc.Stdin, rc.Stdout, rc.Stderr = c.Env, c.Dir, c.Stdin, c.Stdout, c.Stderr
+		rc.ExtraFiles, rc.SysProcAttr = c.ExtraFiles, c.SysProcAttr
+		c.real = rc
+	}
+	return c.real
+}
+
+func simulated() bool { return vrt.S.Active && vrt.CurProc() != nil }
 
 func Command(name string, arg ...string) *Cmd {
 	return &Cmd{Path: name, Args: append([]string{name}, arg...)}
@@ -333,7 +370,12 @@ func CommandContext(ctx context.Context, name string, arg ...string) *Cmd {
 func (c *Cmd) Start() error {
 	parent := vrt.CurProc()
 	if parent == nil || !vrt.S.Active {
-		return fmt.Errorf("vproc: exec outside the simulator: %s", c.Path)
+		rc := c.passThrough()
+		err := rc.Start()
+		if rc.Process != nil {
+			c.Process = &Process{Pid: rc.Process.Pid}
+		}
+		return err
 	}
 	if f := vrt.Gate("proc", "exec "+c.Path); f == vrt.FaultErr {
 		return &os.PathError{Op: "fork/exec", Path: c.Path, Err: syscall.EAGAIN}
@@ -365,6 +407,11 @@ func (c *Cmd) Start() error {
 }
 
 func (c *Cmd) Wait() error {
+	if c.real != nil {
+		err := c.real.Wait()
+		c.ProcessState = c.real.ProcessState
+		return err
+	}
 	if c.proc == nil {
 		return errors.New("exec: not started")
 	}
